@@ -123,7 +123,7 @@ static std::string candidates(const TasmanianSparseGrid &g){
 static std::vector<double> mat_or_empty(const Task &t, const std::string &k){ auto it = t.m.find(k); return it == t.m.end() ? std::vector<double>() : it->second.v; }
 
 // performs the documented API calls of one command; returns through the JSON builder
-static void perform(const Task &t, vf::J &res){
+static void perform(const Task &t, vf::J &res, int fd){
     const std::string cmd = t.gs("cmd");
     const bool ascii = t.gi("ascii", 0) != 0;
     const std::string of = t.gs("of"), gout = t.gs("gout");
@@ -298,16 +298,22 @@ static void perform(const Task &t, vf::J &res){
     }else throw std::logic_error("mirror: unknown command " + cmd);
 
     if (have_mat){ write_matrix(of, ascii, mr, mc, mv.data()); res.b("wrote_mat", true).i("mat_rows", mr).i("mat_cols", mc).raw("flat", vf::jarrd(mv)); }
-    if (wrote_grid && !gout.empty()){ g.write((gout + ".bin").c_str(), mode_binary); g.write((gout + ".asc").c_str(), mode_ascii); }
-    res.b("wrote_grid", wrote_grid).s("text", text).raw("g", describe(g));
+    // primary result: exactly what the command is documented to produce (grid in the requested format, result matrix)
+    if (wrote_grid && !gout.empty()) g.write((gout + (ascii ? ".asc" : ".bin")).c_str(), ascii ? mode_ascii : mode_binary);
+    res.b("wrote_grid", wrote_grid).s("text", text);
+    { vf::J first = res; first.s("status", "ok").b("extras", false); vf::wr(fd, first.str() + "\n"); }
+    // extras for the explorer (state key, description of the state, inputs of later commands); a crash here is not a verdict
+    if (wrote_grid && !gout.empty()) g.write((gout + (ascii ? ".bin" : ".asc")).c_str(), ascii ? mode_binary : mode_ascii);
+    res.raw("g", describe(g));
     if (t.gi("want_cand", 0)) res.raw("cand", candidates(g));
+    res.b("extras", true);
 }
 
-static std::string run_task(const std::string &path){
+static std::string run_task(const std::string &path, int fd){
     Task t; if (!parse_task(path, t)) return vf::J().s("status", "error").s("what", "cannot read task " + path).str();
     vf::J res;
     try{
-        perform(t, res); res.s("status", "ok");
+        perform(t, res, fd); res.s("status", "ok");
     }catch(Precond &p){
         vf::J r; r.s("status", "precond").s("what", p.what); return r.str();
     }catch(std::logic_error &e){
@@ -323,8 +329,14 @@ static std::string run_task(const std::string &path){
 
 // runs the task in a forked child; the answer is one JSON line
 static std::string run_forked(const std::string &path, double timeout){
-    vf::Outcome o = vf::run_child([&](int fd){ vf::wr(fd, run_task(path)); }, timeout);
-    if (o.kind == vf::Outcome::OK && !o.out.empty()) return o.out;
+    vf::Outcome o = vf::run_child([&](int fd){ vf::wr(fd, run_task(path, fd) + "\n"); }, timeout);
+    // the child prints the primary result first and the complete result last (one line each)
+    std::vector<std::string> lines; { std::istringstream is(o.out); std::string l; while(std::getline(is, l)) if (!l.empty() && l.back() == '}') lines.push_back(l); }
+    if (o.kind == vf::Outcome::OK && !lines.empty()) return lines.back();
+    if (!lines.empty()){ // the primary part finished, the extras crashed
+        std::string first = lines.front(); first.pop_back();
+        return first + ",\"extras_crash\":" + vf::jesc(o.kind == vf::Outcome::SANITIZER ? o.sanitizer_class() : o.describe()) + "}";
+    }
     vf::J r; r.s("status", "crash").s("kind", o.describe());
     if (o.kind == vf::Outcome::SANITIZER) r.s("class", o.sanitizer_class());
     r.s("stderr", o.err.substr(0, 1500)); r.s("partial", o.out.substr(0, 200));
